@@ -101,6 +101,25 @@ pub fn values_for(c: &CodeSpec, dense: u64, max_unary: u64, rng: &mut SmallRng, 
                 }
             }
         }
+        Fam::VByteBe | Fam::VByteLe => {
+            // every point where the length steps: 2^7, 2^7 + 2^14, ...
+            let mut thr: u128 = 0;
+            for i in 1..=9u32 {
+                thr += 1u128 << (7 * i);
+                for d in -2i128..=2 {
+                    let x = thr as i128 + d;
+                    if x >= 0 && x <= u64::MAX as i128 {
+                        s.insert(x as u64);
+                    }
+                }
+            }
+        }
+        Fam::Gamma | Fam::Delta | Fam::Zeta | Fam::Pi | Fam::ExpGolomb | Fam::Omega => {
+            // around the limits of the encoding / length tables
+            for x in [62u64, 63, 64, 65, 1021, 1022, 1023, 1024, 1025, 1026] {
+                s.insert(x);
+            }
+        }
         Fam::Rice => {
             for q in 0..4u128 {
                 for d in [-1i128, 0, 1] {
@@ -451,10 +470,10 @@ pub fn run(tr: &mut Tr, seed: u64, mode: &str, full: bool, shard: usize, nshards
     let mut st = Stats { tests: 0, distinct: HashSet::new() };
     match mode {
         "alone" => {
-            let words: Vec<usize> = if full { WRITER_WORDS.to_vec() } else { vec![WRITER_WORDS[(seed as usize) % 5], 64] };
-            alone(tr, &mut rng, &codes, if full { 1 << 12 } else { 300 }, &words, &mut st);
+            let words: Vec<usize> = if full { WRITER_WORDS.to_vec() } else { vec![WRITER_WORDS[(seed as usize) % 5]] };
+            alone(tr, &mut rng, &codes, if full { 1 << 12 } else { 130 }, &words, &mut st);
         }
-        "concat" => concat(tr, &mut rng, &codes, if full { 1024 } else { 200 }, if full { 6 } else { 2 }, &mut st),
+        "concat" => concat(tr, &mut rng, &codes, if full { 1024 } else { 100 }, if full { 6 } else { 2 }, &mut st),
         "offsets" => offsets(tr, &mut rng, &codes, if full { 4 } else { 1 }, &mut st),
         m => panic!("unknown mode {}", m),
     }
